@@ -257,6 +257,16 @@ def entry(a, idx, env=None, _before=None):
             for x, y in zip(nz_a, nz_p):
                 pidx[y] = idx[x]
             return entry(p, pidx, env)
+        if all(isinstance(n, int) for n in tuple(a.shape) + tuple(p.shape)) and all(isinstance(i, int) for i in idx):
+            # concrete shapes and a concrete position: C-order re-indexing
+            flat = 0
+            for i, n in zip(idx, a.shape):
+                flat = flat * n + i
+            pidx = []
+            for n in reversed(p.shape):
+                pidx.append(flat % n)
+                flat //= n
+            return entry(p, list(reversed(pidx)), env)
         return UNKNOWN
     # ---- np.array of (nested) lists / comprehensions
     if a.origin == 'array' and 'elements' in a.tags:
